@@ -116,7 +116,12 @@ Inductive tact :=
 | TExitIfClosed (c : chan)    (* select { case <-c: return ... } *)
 | TExitIfFlag (f : field)     (* if flag { return }: control only; the read of f is a separate TRd *)
 | TSetFlag (f : field)        (* flag = true: control only; the write of f is a separate TWr *)
-| TAgain.                     (* for { ... } : back to the loop head *)
+| TAgain                      (* for { ... } : back to the loop head *)
+| TOnce (f : field)           (* atomic test-and-set of a flag inside one exclusive lock section (or by CAS):
+                                 if set { unlock everything; return } else set it *)
+| TWake (c : chan)            (* under the handler lock: replace the wake-up channel by a fresh one and close the
+                                 replaced one — the CURRENT channel stays open (icmp6 RA) *)
+| TSendIfOpen (f : field) (c : chan). (* if !flag { select { case c <- v: default: } } : non-blocking, skipped once closed *)
 
 (* a template: prologue, a section repeated for each row of the instance, epilogue *)
 Record tmpl := { t_pre : list tact; t_each : list tact; t_post : list tact }.
@@ -143,7 +148,10 @@ Inductive action :=
 | ExitIfClosed (c : chan)
 | ExitIfFlag (x : loc)
 | SetFlag (x : loc)
-| Again.
+| Again
+| Once (x : loc)
+| Wake (c : chan)
+| SendIfOpen (x : loc) (c : chan).
 
 Definition ilock (r : nat) (c : lockc) : lock := (c, if per_row_lock c then r else 0).
 Definition iloc (r : nat) (f : field) : loc := (f, if per_row_field f then r else 0).
@@ -164,6 +172,9 @@ Definition inst1 (r : nat) (a : tact) : action :=
   | TExitIfFlag f => ExitIfFlag (iloc r f)
   | TSetFlag f => SetFlag (iloc r f)
   | TAgain => Again
+  | TOnce f => Once (iloc r f)
+  | TWake c => Wake c
+  | TSendIfOpen f c => SendIfOpen (iloc r f) c
   end.
 Definition inst (r : nat) (l : list tact) : list action := map (inst1 r) l.
 
@@ -244,7 +255,16 @@ Definition step (s : state) (i : nat) : option state :=
       | Acq l m =>
           if can_acquire (threads s) i t l m then Some (upd s i (with_held t ((l, m) :: held t) r)) else None
       | Rel l => Some (upd s i (with_held t (remove_lock l (held t)) r))
-      | Rd _ | Wr _ | ARd _ | AWr _ | LenCap _ => Some (upd s i (with_rest t r))
+      | Rd _ | Wr _ | ARd _ | AWr _ | LenCap _ | Wake _ => Some (upd s i (with_rest t r))
+      | Once x =>
+          if flag_set s x then Some (upd s i (with_held t [] []))
+          else Some {| threads := set_thread i (with_rest t r) (threads s); closedch := closedch s;
+                       flags := x :: flags s; panicked := false |}
+      | SendIfOpen x c =>
+          if flag_set s x then Some (upd s i (with_rest t r))
+          else if chan_closed s c
+          then Some {| threads := threads s; closedch := closedch s; flags := flags s; panicked := true |}
+          else Some (upd s i (with_rest t r))
       | Send c =>
           if chan_closed s c
           then Some {| threads := threads s; closedch := closedch s; flags := flags s; panicked := true |}
@@ -393,7 +413,20 @@ Definition sends (t : tmpl) (c : chan) : bool :=
   existsb (fun a => match a with TSend c' => chan_eqb c c' | _ => false end) (flat t).
 Definition closes (t : tmpl) (c : chan) : bool :=
   existsb (fun a => match a with TCloseCh c' => chan_eqb c c' | _ => false end) (flat t).
-(* every send happens with no lock held *)
+(* guarded (non-blocking, skipped when the flag is set) sends *)
+Definition gsends (t : tmpl) (c : chan) (f : field) : bool :=
+  existsb (fun a => match a with TSendIfOpen f' c' => chan_eqb c c' && field_eqb f f' | _ => false end) (flat t).
+(* every close of c in the template happens after the atomic test-and-set of flag f *)
+Fixpoint close_after_once_aux (seen : bool) (c : chan) (f : field) (acts : list tact) : bool :=
+  match acts with
+  | [] => true
+  | TOnce f' :: r => close_after_once_aux (seen || field_eqb f f') c f r
+  | TCloseCh c' :: r => (negb (chan_eqb c c') || seen) && close_after_once_aux seen c f r
+  | _ :: r => close_after_once_aux seen c f r
+  end.
+Definition close_after_once (t : tmpl) (c : chan) (f : field) : bool := close_after_once_aux false c f (flat t).
+
+(* every (blocking) send happens with no lock held *)
 Fixpoint sends_unlocked (h : list (lockc * mode)) (acts : list tact) : bool :=
   match acts with
   | [] => true
@@ -409,3 +442,4 @@ Arguments TAcq {op}. Arguments TRel {op}. Arguments TRd {op}. Arguments TWr {op}
 Arguments TARd {op}. Arguments TAWr {op}. Arguments TSend {op}. Arguments TLenCap {op}.
 Arguments TCloseCh {op}. Arguments TSpawn {op}. Arguments TExitIfClosed {op}.
 Arguments TExitIfFlag {op}. Arguments TSetFlag {op}. Arguments TAgain {op}.
+Arguments TOnce {op}. Arguments TWake {op}. Arguments TSendIfOpen {op}.
